@@ -45,7 +45,10 @@ def main():
         if stats is not None:
             try:
                 for t in stats(obj, ctx):
-                    tags[t] = tags.get(t, 0) + 1
+                    if isinstance(t, tuple):
+                        tags[t[0]] = tags.get(t[0], 0) + t[1]
+                    else:
+                        tags[t] = tags.get(t, 0) + 1
             except Exception:  # noqa
                 tags["stats-failed"] = tags.get("stats-failed", 0) + 1
         h = obj.get("h") or []
